@@ -259,7 +259,8 @@ def run_case(case):
             x = crandn(rng, ish, dt)
             STATE.peak = 0.0
             got = np.asarray(A(x))
-            ref = np.asarray(spec.apply(desc, x))
+            ref, noise = spec.noise(desc, x)
+            ref = np.asarray(ref)
             peak = STATE.peak     # largest intermediate ||.|| seen by the apply hook
             checks += 1
             if tuple(got.shape) != osh:
@@ -270,7 +271,10 @@ def run_case(case):
                     got.shape, ref.shape), wit, mech="oshape-vs-spec")
             # floor: trees whose parts cancel exactly leave round-off of the (possibly
             # much larger) intermediates; 1e-10 * 1e-3 * peak is ~1e3 eps * peak
-            sc = nrm(ref) + 1e-3 * max(nrm(x), peak)
+            # plus the modelled round-off level of this tree on this input (x1e3 head-room):
+            # a late stage with a large gain amplifies the 1e-16 differences that come from
+            # the two evaluation orders
+            sc = nrm(ref) + 1e-3 * max(nrm(x), peak) + 1e13 * noise
             e = nrm(got - ref) / sc if sc > 0 else nrm(got - ref)
             worst = max(worst, e)
             if not e <= tol:
@@ -290,7 +294,11 @@ def run_case(case):
             R = np.stack(cols, axis=1)
             checks += 1
             dmax = float(np.max(np.abs(M - R))) if M.size else 0.0
-            sc = max(1.0, float(np.max(np.abs(R))) if R.size else 1.0, 1e-3 * STATE.peak)
+            e1 = np.zeros(n, np.complex128)
+            e1[0] = 1
+            _, noise1 = spec.noise(desc, e1.reshape(ish))
+            sc = max(1.0, float(np.max(np.abs(R))) if R.size else 1.0, 1e-3 * STATE.peak,
+                     1e13 * noise1)
             obs["dense"] = dmax / sc
             sig += "|dense"
             if not dmax <= 1e-10 * sc * n:
